@@ -531,6 +531,52 @@ pub fn c18_shared_keys<S: Src>(_s: &mut S) {
     assert!(failures.is_empty(), "{} shared-key scenarios mispredict the signed size; first: {}", failures.len(), failures[0]);
 }
 
+// ---------------------------------------------------------------- C09: a script supplied through a reference input still puts its language into the hash
+pub fn c09_ref_script_languages<S: Src>(_s: &mut S) {
+    let mut failures: Vec<String> = Vec::new();
+    // variant: which sub-builder holds the only Plutus (V2) witness of the transaction, its script supplied by reference
+    for variant in 0..4u8 {
+        let tag = ["withdrawal", "certificate", "mint", "vote"][variant as usize];
+        let script = PlutusScript::new_v2(vec![4u8, 5, 6, variant]);
+        let src = PlutusScriptSource::new_ref_input(&script.hash(), &TransactionInput::new(&TransactionHash::from([9u8; 32]), 1), &Language::new_plutus_v2(), 4);
+        let cred = Credential::from_scripthash(&script.hash());
+        let mut tb = TransactionBuilder::new(&config(true));
+        let mut ib = TxInputsBuilder::new();
+        ib.add_key_input(&kh(1), &TransactionInput::new(&TransactionHash::from([3u8; 32]), 0), &Value::new(&bn(500_000_000)));
+        tb.set_inputs(&ib);
+        let ok = match variant {
+            0 => { let mut wb = WithdrawalsBuilder::new(); let r = wb.add_with_plutus_witness(&RewardAddress::new(0, &cred), &bn(1_000_000), &PlutusWitness::new_with_ref_without_datum(&src, &redeemer_with_marker(&RedeemerTag::new_reward(), 1))); tb.set_withdrawals_builder(&wb); r.is_ok() }
+            1 => { let mut cb = CertificatesBuilder::new(); let r = cb.add_with_plutus_witness(&Certificate::new_stake_deregistration(&StakeDeregistration::new(&cred)), &PlutusWitness::new_with_ref_without_datum(&src, &redeemer_with_marker(&RedeemerTag::new_cert(), 2))); tb.set_certs_builder(&cb); r.is_ok() }
+            2 => { let mut mb = MintBuilder::new(); let r = mb.add_asset(&MintWitness::new_plutus_script(&src, &redeemer_with_marker(&RedeemerTag::new_mint(), 3)), &AssetName::new(vec![1]).unwrap(), &Int::new_i32(5)); tb.set_mint_builder(&mb); r.is_ok() }
+            _ => { let mut vb = VotingBuilder::new(); let r = vb.add_with_plutus_witness(&Voter::new_drep_credential(&cred), &GovernanceActionId::new(&TransactionHash::from([5u8; 32]), 0), &VotingProcedure::new(VoteKind::Yes), &PlutusWitness::new_with_ref_without_datum(&src, &redeemer_with_marker(&RedeemerTag::new_vote(), 4))); tb.set_voting_builder(&vb); r.is_ok() }
+        };
+        if !ok { failures.push(format!("{}: the builder refuses the reference-script witness", tag)); continue; }
+        let mut cm = Costmdls::new();
+        let mut model = CostModel::new();
+        for i in 0..4 { model.set(i, &Int::new_i32(100 + i as i32)).unwrap(); }
+        cm.insert(&Language::new_plutus_v1(), &model); cm.insert(&Language::new_plutus_v2(), &model); cm.insert(&Language::new_plutus_v3(), &model);
+        if tb.calc_script_data_hash(&cm).is_err() { failures.push(format!("{}: calc_script_data_hash failed", tag)); continue; }
+        let (ws, body_hash) = match (tb_witness_set(&tb), tb_script_data_hash(&tb)) { (Ok(w), Ok(h)) => (w, h), _ => { failures.push(format!("{}: no witness set / script data hash", tag)); continue; } };
+        let wsb = ws.to_bytes();
+        let mut f5: Option<Vec<u8>> = None;
+        if !wsb.is_empty() && wsb[0] >> 5 == 5 && (wsb[0] & 0x1f) < 24 {
+            let mut p = 1usize;
+            for _ in 0..(wsb[0] & 0x1f) {
+                let key = wsb[p];
+                let end = match crate::wellformed::item_end(&wsb, p + 1, 64) { Some(e) => e, None => break };
+                if key == 5 { f5 = Some(wsb[p + 1..end].to_vec()); }
+                p = end;
+            }
+        }
+        let mut pre = match f5 { Some(x) => x, None => { failures.push(format!("{}: no redeemers emitted", tag)); continue; } };
+        pre.extend(vec![0xa1, 0x01, 0x84, 0x18, 100, 0x18, 101, 0x18, 102, 0x18, 103]);       // language views: { 1: [100, 101, 102, 103] }
+        if blake2b256_ref(&pre).to_vec() != body_hash.to_bytes() {
+            failures.push(format!("{}: the script data hash is not blake2b256(redeemers | language view of PlutusV2): the language of a script supplied through a reference input is missing or wrong", tag));
+        }
+    }
+    assert!(failures.is_empty(), "{} reference-script scenarios give a script data hash the ledger would not derive; first: {}", failures.len(), failures[0]);
+}
+
 // ---------------------------------------------------------------- C09 first clause: auxiliary-data hash
 fn blake2b256_ref(data: &[u8]) -> [u8; 32] {
     use cryptoxide::hashing::blake2b::Blake2b;
